@@ -139,6 +139,37 @@ def pathJoin (a b : Str) : Str :=
   else if a = [] ∨ a.getLast? = some '/' then a ++ b
   else a ++ '/' :: b
 
+/-- `s.split('/')` -/
+def splitSlash : Str → List Str
+  | [] => [[]]
+  | c :: rest =>
+    match splitSlash rest with
+    | [] => [[c]]          -- unreachable: the result is never empty
+    | h :: t => if c = '/' then [] :: h :: t else (c :: h) :: t
+
+/-- The component loop of `posixpath.normpath`; `acc` holds the kept components, last first. -/
+def normComps (absolute : Bool) : List Str → List Str → List Str
+  | [], acc => acc.reverse
+  | comp :: rest, acc =>
+    if comp = [] ∨ comp = ['.'] then normComps absolute rest acc
+    else if comp ≠ ['.', '.'] ∨ (!absolute ∧ acc = []) ∨ acc.head? = some ['.', '.'] then
+      normComps absolute rest (comp :: acc)
+    else normComps absolute rest acc.tail
+
+/-- `posixpath.normpath` -/
+def normpath (path : Str) : Str :=
+  if path = [] then ['.']
+  else
+    let slashes : Nat :=
+      match path with
+      | '/' :: '/' :: '/' :: _ => 1
+      | '/' :: '/' :: _ => 2
+      | '/' :: _ => 1
+      | _ => 0
+    let body := joinWith ['/'] (normComps (slashes ≠ 0) (splitSlash path) [])
+    let res := List.replicate slashes '/' ++ body
+    if res = [] then ['.'] else res
+
 /-- `str(n)` for a natural number. -/
 def natDigits (n : Nat) : Str := (Nat.toDigits 10 n)
 
